@@ -35,6 +35,10 @@ fn project_doc(variant: usize) -> Vec<ABlock> {
     }
     d.push(blk("Ladrillo hueco", "MATERIAL", mat));
     d.push(blk("Camara R", "MATERIAL", vec![("TYPE", w("RESISTANCE")), ("RESISTANCE", n(0.25))]));
+    if full {
+        // a quoted string may hold the comment sign, brackets, commas and an equals sign
+        d.push(blk("Aislante caro", "MATERIAL", vec![("TYPE", w("PROPERTIES")), ("CONDUCTIVITY", n(0.03125)), ("DENSITY", n(30.0)), ("GROUP", s("Aislantes 12$/m2 (oferta), a = b"))]));
+    }
     let mut lay = vec![("MATERIAL", AVal::NameList(vec!["Ladrillo hueco".into(), "Camara R".into(), "Ladrillo hueco".into()])), ("THICKNESS", AVal::NumList(vec![0.125, 0.0, 0.25]))];
     if full {
         lay.insert(0, ("GROUP", s("Fachadas")));
@@ -307,6 +311,12 @@ fn check_typed(ctx: &Ctx, variant: usize, d: &Data, case: &dyn Fn() -> serde_jso
     match d.db.materials.get("Camara R") {
         Some(m) if m.resistance == Some(0.25) && m.properties.is_none() => {}
         other => bad("MATERIAL:resistance", format!("{:?}", other)),
+    }
+    if full {
+        match d.db.materials.get("Aislante caro") {
+            Some(m) if m.group == "Aislantes 12$/m2 (oferta), a = b" && m.properties.map(|p| (p.conductivity, p.density)) == Some((0.03125, 30.0)) => {}
+            other => bad("MATERIAL:quoted-string-with-signs", format!("{:?}", other)),
+        }
     }
     match d.db.wallcons.get("Muro tipo") {
         Some(c) if c.material == vec!["Ladrillo hueco", "Camara R", "Ladrillo hueco"] && c.thickness == vec![0.125, 0.0, 0.25] => {}
